@@ -34,7 +34,8 @@ def obligations(ctx):
                         continue
                     obs.append(g.kernel_ob(kop, dbl, nn, pmode=2, pr=r, timeout=3000))
     # (c) every residue, concrete representatives (control flow folds, data stays symbolic)
-    conc_n = (16, 32) if ctx.quick else (16, 32, 64, 128, 256)
+    # N = 256: 65 of the first 600 obligations ran into the 900 s limit on a shared machine (round 6) - the thorough tier stops at 128
+    conc_n = (16, 32) if ctx.quick else (16, 32, 64, 128)
     for nn in (2, 4, 8) + conc_n:
         for kop in (0, 1, 2):
             for dbl in (0, 1):
@@ -74,11 +75,11 @@ def check(ctx, only=None, list_only=False):
                               "znx_mul_xp_minus_one", "rnx_mul_xp_minus_one", "rnx_mul_xp_minus_one_inplace",
                               "znx_automorphism_i64", "znx_automorphism_inplace_i64", "rnx_automorphism_f64", "rnx_automorphism_inplace_f64",
                               "vec_znx_rotate(_ref)", "vec_znx_automorphism(_ref)", "vec_znx_big_rotate", "vec_znx_big_automorphism"],
-        "bounds": "N in {2,4,8}: p fully symbolic over int64 (odd for automorphisms) in one query each; N in {16,32} (thorough: also 64,128,256): "
+        "bounds": "N in {2,4,8}: p fully symbolic over int64 (odd for automorphisms) in one query each; N in {16,32} (thorough: also 64,128): "
                   "every residue mod 2N with one concrete representative per residue rotating over {r, r-2N, r+2N*2^40, smallest int64 in the class} "
                   "(thorough: all four for N<=32, and N=16 with symbolic multiple of 2N); data symbolic everywhere; wrappers at N in {2,4} "
                   "with symbolic p, in place and out of place",
-        "outside": "for N>=16 'all p' is all residues x chosen representatives, not all of int64; N>32 (256 thorough); "
+        "outside": "for N>=16 'all p' is all residues x chosen representatives, not all of int64; N>32 (128 thorough); "
                    "composition laws are consequences of the signed-permutation specification and not separately checked; "
                    "rnx_mul_xp_minus_one(_inplace) on doubles is decided on the injective probe vector in[j]=2^j, not on all data: "
                    "an IEEE subtraction behind index selection is not decided by any SAT back end here (minisat, cadical, kissat: no answer in 100-600 s "
